@@ -381,7 +381,9 @@ def makeclusters(crys, cutoff, maxorder, exclude=()):
     # first, make lists of all our pairs within a given nn distance
     # we could modify this to use different cutoff between different chemistries...
     r2 = cutoff * cutoff
-    nmax = [int(np.round(np.sqrt(r2/crys.metric[i, i]))) + 1
+    # lattice-vector search box from the dual basis: |n_i + du_i| <= cutoff*sqrt((g^-1)_ii)
+    invmetric = np.linalg.inv(crys.metric)
+    nmax = [int(np.round(np.sqrt(r2*invmetric[i, i]))) + 1
             for i in range(crys.dim)]
     nranges = [range(-n, n+1) for n in nmax]
     supervect = [np.array(ntup) for ntup in itertools.product(*nranges)]
